@@ -28,8 +28,15 @@ class World:
         nm = os.environ.get("VERIF_NORM")
         if nm:
             from . import inline
-            ms, sz = {"1": (1, 6000), "2": (4, 250), "3": (8, 600)}.get(nm, (1, 6000))
-            self.norm = inline.normalise(self.P, max_sites=ms, max_size=sz)
+            try:
+                ref = set(json.load(open(os.path.join(VERIF, "reference_functions.json")))["functions"])
+            except Exception:
+                ref = None
+            if ref is None:
+                raise AnalysisBroken("reference_functions.json missing")
+            # canonical form: static helpers that did not exist at the pinned commit (introduced by a later edit) are inlined into their
+            # callers, whatever the number of call sites; functions of the pinned tree keep their boundaries (rules are tied to them)
+            self.norm = inline.normalise(self.P, max_sites=64, max_size=6000, only_new=ref)
         self._api = None
         self._macros = None
         self._lock = None
@@ -251,7 +258,7 @@ def seeded_selftest(chk, pid):
 
 def main(argv=None):
     """runs the property on the program as written; if that does not end with exit 0, the same rules are run on the canonical form in which
-    single-call-site static helpers are inlined (a semantics-preserving normalisation that undoes extract-function refactorings).  The
+    static helpers that did not exist at the pinned commit are inlined (a semantics-preserving normalisation that undoes extract-function refactorings).  The
     property's structural conditions hold if they hold on either form; a violation is reported only when both forms fail."""
     import subprocess, shutil, tempfile, io, contextlib
     if os.environ.get("VERIF_NORM") or os.environ.get("VERIF_NO_FALLBACK"):
@@ -272,14 +279,14 @@ def main(argv=None):
         if o.returncode == 0:
             evp = os.path.join(tmp, "evidence", "%s.json" % pid)
             ev = json.load(open(evp))
-            ev["coverage"]["normalisation"] = ("decided on the canonical form: every static helper with a single call site inlined into its caller "
+            ev["coverage"]["normalisation"] = ("decided on the canonical form: every static helper that does not exist at the pinned commit inlined into its callers "
                                                "(semantics-preserving; vf/inline.py). On the program as written the rule shapes were not matched: "
                                                + " | ".join(l.strip() for l in out0.splitlines() if l.startswith(("  C", "ANALYSIS")))[:600])
             os.makedirs(os.path.join(OUT, "evidence"), exist_ok=True)
             json.dump(ev, open(os.path.join(OUT, "evidence", "%s.json" % pid), "w"), indent=1, default=str)
             shutil.rmtree(os.path.join(OUT, "reports", pid), ignore_errors=True)
             sys.stdout.write(o.stdout)
-            print("NOTE property=%s decided on the canonical form (single-call-site static helpers inlined); the unnormalised run did not match the rule shapes" % pid)
+            print("NOTE property=%s decided on the canonical form (static helpers introduced after the pinned commit inlined); the unnormalised run did not match the rule shapes" % pid)
             return 0
     finally:
         shutil.rmtree(tmp, ignore_errors=True)
